@@ -260,10 +260,10 @@ Error RACFGBuilder::on_instruction(InstNode* inst, InstControlFlow& control_type
               // element accessor that accesses half-words (h[0..7] elements).
               if (inst_info.has_flag(InstDB::kInstFlagVH0_15) && reg.as<Vec>().element_type() == VecElementType::kH) {
                 if (Support::test(flags, RATiedFlags::kUse)) {
-                  use_id &= 0x0000FFFFu;
+                  use_regs &= 0x0000FFFFu;
                 }
                 else {
-                  out_id &= 0x0000FFFFu;
+                  out_regs &= 0x0000FFFFu;
                 }
               }
             }
